@@ -376,6 +376,10 @@ func VHC05LogicUnaryIs() {
 		i := vh.Choose("isName", len(isNames))
 		cell, k, _ := evalExpr("$.l is "+isNames[i], map[string]any{"l": l})
 		checkResult(cell, k, sres{kind: resBool, b: lk == isKinds[i]}, "C05 "+kindNames[lk]+" is "+isNames[i])
+		// a name that is no type name names no type: false for every operand
+		bogus := []string{"strng", "str", "numbr", "String", "Number", "list", "x"}[vh.Choose("bogus", 7)]
+		cell, k, _ = evalExpr("$.l is "+bogus, map[string]any{"l": l})
+		checkResult(cell, k, sres{kind: resBool, b: false}, "C05 "+kindNames[lk]+" is "+bogus+" (not a type name)")
 	}
 	vh.Reach("logic evaluated")
 }
